@@ -542,8 +542,18 @@ fn derive_half(tys: &[G], thorough: bool, t: &mut Tally) {
 
 fn derive_half_one(tys: &[G], i: usize, thorough: bool, t: &mut Tally) {
     // the last head declares type parameters after a const parameter (syn accepts any order)
-    let heads = ["<T, U, X>", "<'a, 'b, T: Clone + 'a, U, X = u8, const N: usize = 3>", "<T, U: ?Sized, X>", "<'a, const N: usize, T, U, const M: usize, X>"];
-    let wheres = ["", " where U: Copy, T: Into<U>"];
+    // the fifth and sixth heads bound parameters by other traits that merely *end* in the
+    // conversion trait's name, and by darling's own trait spelled differently: the emitted bound is
+    // added all the same
+    let heads = [
+        "<T, U, X>",
+        "<'a, 'b, T: Clone + 'a, U, X = u8, const N: usize = 3>",
+        "<T, U: ?Sized, X>",
+        "<'a, const N: usize, T, U, const M: usize, X>",
+        "<T: legacy::FromMeta, U: FromMeta + Clone, X: crate::meta::FromMeta>",
+        "<T: darling::FromMeta, U: ::darling_core::FromMeta, X: FromMetaLike>",
+    ];
+    let wheres = ["", " where U: Copy, T: Into<U>", " where T: legacy::FromMeta, U: other::FromMeta + Clone, X: FromMeta"];
     {
         let a = &tys[i];
         let b = &tys[(i * 31 + 7) % tys.len()];
